@@ -55,6 +55,21 @@ def case_parse(xp, s: str, ksr=False) -> str:
     return f"CParse {uniwords(s)} {txt(s)} {vlib.coq_bool(ksr)} {res(r, enc_val)}", r
 
 
+def case_tree(xp, doc: str):
+    """CTree case for a document in the plain form (None when it is outside that form or the reader refuses it)."""
+    import xmltree
+    try:
+        prolog, t = xmltree.to_tree(doc)
+    except xmltree.NotPlain:
+        return None
+    if prolog + xmltree.ser(t) != doc:
+        raise RuntimeError("xmltree: tokenizer does not reproduce the document")
+    r = run_timed(xp.parse_ksr, doc)
+    if r[0] != "ok":
+        return None
+    return f"CTree {txt(prolog)} {xmltree.coq_tree(t)} {txt(doc)} {enc_val(r[1])}"
+
+
 def case_tag(xp, s: str) -> str:
     r = run_timed(xp._parse_tag, s)
     fmt = lambda t: f"({txt(t[0])}, {'None' if t[1] is None else '(Some ' + enc_attrs(t[1]) + ')'}, {z(t[2])})"
